@@ -180,11 +180,285 @@ fn compare(base: &Result<(Vec<(String, Vec<String>)>, Vec<String>), String>, var
     }
 }
 
+// ---------------------------------------------------------------------------------------
+// real-world modules: the harness owns no token list for them, so a light scanner finds the
+// whitespace runs that lie between tokens (outside character strings, bstrings / hstrings and
+// comments) and only those are re-laid-out
+
+#[derive(Clone, Copy, Debug, PartialEq)]
+enum SegKind {
+    Code,
+    Ws,
+    /// comment, cstring, bstring / hstring: never touched
+    Opaque,
+    /// a `--` comment that ran to the end of its line: the next run must not get a `--` form
+    LineComment,
+}
+
+fn segments(text: &str) -> Vec<(SegKind, usize, usize)> {
+    let b = text.as_bytes();
+    let mut out: Vec<(SegKind, usize, usize)> = vec![];
+    let mut i = 0;
+    let mut push = |k: SegKind, a: usize, e: usize, out: &mut Vec<(SegKind, usize, usize)>| {
+        if e > a {
+            if let Some(last) = out.last_mut() {
+                if last.0 == k && k != SegKind::Opaque && k != SegKind::LineComment && last.2 == a {
+                    last.2 = e;
+                    return;
+                }
+            }
+            out.push((k, a, e));
+        }
+    };
+    while i < b.len() {
+        let c = b[i];
+        if c == b'"' {
+            let a = i;
+            i += 1;
+            while i < b.len() {
+                if b[i] == b'"' {
+                    if i + 1 < b.len() && b[i + 1] == b'"' {
+                        i += 2;
+                        continue;
+                    }
+                    i += 1;
+                    break;
+                }
+                i += 1;
+            }
+            push(SegKind::Opaque, a, i, &mut out);
+        } else if c == b'\'' {
+            let a = i;
+            i += 1;
+            while i < b.len() && b[i] != b'\'' {
+                i += 1;
+            }
+            i = (i + 1).min(b.len());
+            // the B / H suffix belongs to the literal
+            if i < b.len() && (b[i] == b'B' || b[i] == b'H') {
+                i += 1;
+            }
+            push(SegKind::Opaque, a, i, &mut out);
+        } else if c == b'-' && i + 1 < b.len() && b[i + 1] == b'-' {
+            let a = i;
+            i += 2;
+            let mut to_eol = true;
+            while i < b.len() && b[i] != b'\n' && b[i] != b'\r' {
+                if b[i] == b'-' && i + 1 < b.len() && b[i + 1] == b'-' {
+                    i += 2;
+                    to_eol = false;
+                    break;
+                }
+                i += 1;
+            }
+            push(if to_eol { SegKind::LineComment } else { SegKind::Opaque }, a, i, &mut out);
+        } else if c == b'/' && i + 1 < b.len() && b[i + 1] == b'*' {
+            let a = i;
+            let mut depth = 0;
+            while i < b.len() {
+                if b[i] == b'/' && i + 1 < b.len() && b[i + 1] == b'*' {
+                    depth += 1;
+                    i += 2;
+                } else if b[i] == b'*' && i + 1 < b.len() && b[i + 1] == b'/' {
+                    depth -= 1;
+                    i += 2;
+                    if depth == 0 {
+                        break;
+                    }
+                } else {
+                    i += 1;
+                }
+            }
+            push(SegKind::Opaque, a, i, &mut out);
+        } else if c == b' ' || c == b'\t' || c == b'\n' || c == b'\r' {
+            let a = i;
+            while i < b.len() && (b[i] == b' ' || b[i] == b'\t' || b[i] == b'\n' || b[i] == b'\r') {
+                i += 1;
+            }
+            push(SegKind::Ws, a, i, &mut out);
+        } else {
+            let a = i;
+            i += 1;
+            while i < b.len() && !(b[i] == b' ' || b[i] == b'\t' || b[i] == b'\n' || b[i] == b'\r' || b[i] == b'"' || b[i] == b'\'' || (b[i] == b'-' && i + 1 < b.len() && b[i + 1] == b'-') || (b[i] == b'/' && i + 1 < b.len() && b[i + 1] == b'*')) {
+                i += 1;
+            }
+            push(SegKind::Code, a, i, &mut out);
+        }
+    }
+    out
+}
+
+/// the token at the end / start of a chunk of code (a word of letters, digits and hyphens, `...`, `::=`, or one punctuation character)
+fn edge_token(chunk: &str, last: bool) -> String {
+    let cs: Vec<char> = chunk.chars().collect();
+    if cs.is_empty() {
+        return String::new();
+    }
+    let word = |c: char| c.is_alphanumeric() || c == '-' || c == '&';
+    if last {
+        let e = cs.len();
+        if word(cs[e - 1]) {
+            let mut a = e;
+            while a > 0 && word(cs[a - 1]) {
+                a -= 1;
+            }
+            return cs[a..e].iter().collect();
+        }
+        for t in ["...", "::=", "..", "[[", "]]"] {
+            if chunk.ends_with(t) {
+                return t.to_string();
+            }
+        }
+        cs[e - 1].to_string()
+    } else {
+        if word(cs[0]) {
+            let mut e = 0;
+            while e < cs.len() && word(cs[e]) {
+                e += 1;
+            }
+            return cs[..e].iter().collect();
+        }
+        for t in ["...", "::=", "..", "[[", "]]"] {
+            if chunk.starts_with(t) {
+                return t.to_string();
+            }
+        }
+        cs[0].to_string()
+    }
+}
+
+/// one re-layout of a real module: every eligible whitespace run gets `f(run index, run text)`
+fn relayout(text: &str, segs: &[(SegKind, usize, usize)], f: &dyn Fn(usize, &str, bool) -> Option<String>) -> (String, Vec<(String, String)>) {
+    let mut out = String::with_capacity(text.len() + 64);
+    let mut sites = vec![];
+    // an encoding control section (X.680 54) holds encoding instructions, not ASN.1 notation:
+    // nothing behind its keyword is touched
+    let stop = segs.iter().position(|(k, a, e)| *k == SegKind::Code && text[*a..*e].contains("ENCODING-CONTROL")).unwrap_or(segs.len());
+    for (n, (k, a, e)) in segs.iter().enumerate() {
+        let t = &text[*a..*e];
+        if n < stop && *k == SegKind::Ws && n > 0 && n + 1 < segs.len() && segs[n + 1].0 == SegKind::Code && matches!(segs[n - 1].0, SegKind::Code | SegKind::LineComment) {
+            let after_line_comment = segs[n - 1].0 == SegKind::LineComment;
+            if let Some(r) = f(n, t, after_line_comment) {
+                if !after_line_comment {
+                    sites.push((kind_of(&edge_token(&text[segs[n - 1].1..segs[n - 1].2], true)), kind_of(&edge_token(&text[segs[n + 1].1..segs[n + 1].2], false))));
+                }
+                out.push_str(&r);
+                continue;
+            }
+        }
+        out.push_str(t);
+    }
+    (out, sites)
+}
+
 fn site_id(left: &str, right: &str, form_class: &str) -> String {
     format!("F-ws[{left} {right} {form_class}]")
 }
 
+/// one-off enumeration of the lexer sites at which real modules do not survive a re-layout
+/// (`C13_COLLECT=1 vcheck C13`): every eligible whitespace run is re-laid-out at once, a
+/// failure is bisected down to one run, its site is recorded and excluded, until the file
+/// passes. The output is the material for the F-ws[..] entries of known_findings.json.
+fn collect_sites() {
+    let reals = crate::props::c11::real_modules(100000, 0);
+    let results: Vec<Vec<(String, String, usize, String)>> = reals
+        .par_iter()
+        .map(|(name, text)| {
+            let mut found: Vec<(String, String, usize, String)> = vec![];
+            if text.len() > 60_000 {
+                return found;
+            }
+            let base = observe(text);
+            if base.is_err() {
+                return found;
+            }
+            let segs = segments(text);
+            if segs.iter().map(|(_, a, e)| &text[*a..*e]).collect::<String>() != *text {
+                return found;
+            }
+            let forms: Vec<(&'static str, Box<dyn Fn(&str) -> Option<String> + Sync>)> = vec![
+                ("linebreak", Box::new(|t: &str| if t.contains('\n') && !t.contains('\r') { Some(t.replace('\n', "\r\n")) } else { None })),
+                ("linebreak", Box::new(|t: &str| if !t.contains('\n') { Some("\n".to_string()) } else { None })),
+                ("space", Box::new(|t: &str| if !t.contains('\n') { Some("\t".to_string()) } else { None })),
+                ("space", Box::new(|t: &str| if !t.contains('\n') { Some(format!("{t} ")) } else { None })),
+                ("comment", Box::new(|t: &str| Some(format!(" /* c */{t}")))),
+                ("comment", Box::new(|t: &str| if t.contains('\n') { Some(format!(" -- c{t}")) } else { None })),
+                ("comment", Box::new(|t: &str| Some(format!(" -- c --{t}")))),
+            ];
+            for (class, f) in &forms {
+                let mut excluded: std::collections::BTreeSet<String> = Default::default();
+                for _round in 0..40 {
+                    let eligible: Vec<usize> = {
+                        let (_, _) = (0, 0);
+                        let mut v = vec![];
+                        let _ = relayout(text, &segs, &|n, t, alc| {
+                            let _ = (n, t, alc);
+                            None
+                        });
+                        for (n, (k, a, e)) in segs.iter().enumerate() {
+                            if *k == SegKind::Ws && n > 0 && n + 1 < segs.len() && segs[n + 1].0 == SegKind::Code && segs[n - 1].0 == SegKind::Code && f(&text[*a..*e]).is_some() {
+                                let l = kind_of(&edge_token(&text[segs[n - 1].1..segs[n - 1].2], true));
+                                let r = kind_of(&edge_token(&text[segs[n + 1].1..segs[n + 1].2], false));
+                                if !excluded.contains(&site_id(&l, &r, class)) {
+                                    v.push(n);
+                                }
+                            }
+                        }
+                        v
+                    };
+                    let fails = |set: &[usize]| -> bool {
+                        let (vt, _) = relayout(text, &segs, &|n, t, alc| if !alc && set.contains(&n) { f(t) } else { None });
+                        compare(&base, &observe(&vt)).is_some()
+                    };
+                    if eligible.is_empty() || !fails(&eligible) {
+                        break;
+                    }
+                    let mut set = eligible.clone();
+                    let mut ok = true;
+                    while set.len() > 1 {
+                        let (a, b) = set.split_at(set.len() / 2);
+                        if fails(a) {
+                            set = a.to_vec();
+                        } else if fails(b) {
+                            set = b.to_vec();
+                        } else {
+                            ok = false;
+                            break;
+                        }
+                    }
+                    if !ok {
+                        found.push(("INTERACTION".into(), class.to_string(), text.len(), name.clone()));
+                        break;
+                    }
+                    let n = set[0];
+                    let l = kind_of(&edge_token(&text[segs[n - 1].1..segs[n - 1].2], true));
+                    let r = kind_of(&edge_token(&text[segs[n + 1].1..segs[n + 1].2], false));
+                    let id = site_id(&l, &r, class);
+                    let line: String = text[..segs[n].1].lines().last().unwrap_or("").chars().rev().take(50).collect::<String>().chars().rev().collect::<String>() + " <<>> " + &text[segs[n].2..].lines().next().unwrap_or("").chars().take(40).collect::<String>();
+                    found.push((id.clone(), line, text.len(), name.clone()));
+                    excluded.insert(id);
+                }
+            }
+            found
+        })
+        .collect();
+    let mut by_site: BTreeMap<String, Vec<(usize, String, String)>> = BTreeMap::new();
+    for r in results {
+        for (id, line, len, name) in r {
+            by_site.entry(id).or_default().push((len, name, line));
+        }
+    }
+    for (id, mut v) in by_site {
+        v.sort();
+        println!("SITE\t{id}\t{}\t{}\t{}\t{}", v.len(), v[0].0, v[0].1, v[0].2);
+    }
+}
+
 pub fn run(tier: Tier, seed: u64, replay: Option<String>) -> i32 {
+    if std::env::var("C13_COLLECT").is_ok() {
+        collect_sites();
+        return 0;
+    }
     let mut ctx = Ctx::new("C13", tier, seed);
     ctx.max_replays = 60;
     ctx.rule = "generator outputs (token lists known): every token boundary individually x layout forms (quick: tab, LF, `-- c` to end of line, `/* c */`, plus the \
@@ -317,6 +591,136 @@ pub fn run(tier: Tier, seed: u64, replay: Option<String>) -> i32 {
             }
             judge(&mut ctx, &bt, &vt, &l, &r, fc, inside, cmp, &mut seen);
         }
+    }
+    // ---- real-world modules of the repository that compile: whole-file re-layouts
+    {
+        let reals = crate::props::c11::real_modules(tier.pick(150, 900), seed);
+        type RRow = (String, String, String, String, &'static str, Option<(&'static str, String)>);
+        let rrows: Vec<Vec<RRow>> = reals
+            .par_iter()
+            .map(|(name, text)| {
+                let mut out: Vec<RRow> = vec![];
+                if text.len() > 60_000 {
+                    return out;
+                }
+                let base = observe(text);
+                if base.is_err() {
+                    return out;
+                }
+                let segs = segments(text);
+                // the scanner must reproduce the text (guards the leg against its own mistakes)
+                if segs.iter().map(|(_, a, e)| &text[*a..*e]).collect::<String>() != *text {
+                    return out;
+                }
+                let h = crate::ev::hash_str(name) ^ seed;
+                let pick = |n: usize, m: u64| (h.rotate_left((n % 61) as u32) ^ (n as u64).wrapping_mul(0x9e3779b97f4a7c15)) % m;
+                let listed = |l: &str, r: &str, class: &str| known_ids.contains(&site_id(l, r, class));
+                let edge = |n: usize| (kind_of(&edge_token(&text[segs[n - 1].1..segs[n - 1].2], true)), kind_of(&edge_token(&text[segs[n + 1].1..segs[n + 1].2], false)));
+                let variants: Vec<(&'static str, &'static str, Box<dyn Fn(usize, &str, bool) -> Option<String> + Sync>)> = vec![
+                    // every line break becomes CRLF
+                    ("real:crlf", "linebreak", Box::new(|n, t: &str, alc| {
+                        if !t.contains('\n') || t.contains('\r') {
+                            return None;
+                        }
+                        if !alc {
+                            let (l, r) = edge(n);
+                            if listed(&l, &r, "linebreak") {
+                                return None;
+                            }
+                        }
+                        Some(t.replace('\n', "\r\n"))
+                    })),
+                    // blanks inside a line become a tab / two blanks
+                    ("real:blanks", "space", Box::new(|n, t: &str, alc| {
+                        if alc || t.contains('\n') {
+                            return None;
+                        }
+                        let (l, r) = edge(n);
+                        if listed(&l, &r, "space") {
+                            return None;
+                        }
+                        Some(if pick(n, 2) == 0 { "\t".to_string() } else { format!("{t} ") })
+                    })),
+                    // a third of the line ends get a `/* c */` in front of the line break
+                    ("real:block-comments", "comment", Box::new(|n, t: &str, alc| {
+                        if alc || !t.contains('\n') || pick(n, 3) != 0 {
+                            return None;
+                        }
+                        let (l, r) = edge(n);
+                        if listed(&l, &r, "comment") {
+                            return None;
+                        }
+                        Some(format!(" /* {} */{t}", COMMENT_BODIES[n % COMMENT_BODIES.len()]))
+                    })),
+                    // ... or a `-- c` up to the line break
+                    ("real:line-comments", "comment", Box::new(|n, t: &str, alc| {
+                        if alc || !t.contains('\n') || pick(n, 3) != 1 {
+                            return None;
+                        }
+                        let (l, r) = edge(n);
+                        if listed(&l, &r, "comment") {
+                            return None;
+                        }
+                        Some(format!(" -- {}{t}", COMMENT_BODIES[n % COMMENT_BODIES.len()].trim_end()))
+                    })),
+                    // one boundary in ten, anywhere in a line, gets an inline comment
+                    ("real:inline-comments", "comment", Box::new(|n, t: &str, alc| {
+                        if alc || pick(n, 10) != 0 {
+                            return None;
+                        }
+                        let (l, r) = edge(n);
+                        if listed(&l, &r, "comment") {
+                            return None;
+                        }
+                        Some(format!(" -- c --{t}"))
+                    })),
+                ];
+                for (leg, class, f) in &variants {
+                    let (vt, sites) = relayout(text, &segs, &**f);
+                    if sites.is_empty() || vt == *text {
+                        continue;
+                    }
+                    let cmp = compare(&base, &observe(&vt));
+                    // a failure is narrowed to one boundary: the first whose re-layout alone fails
+                    let (mut l, mut r) = ("many".to_string(), format!("{} boundaries of {name}", sites.len()));
+                    let mut vt_final = vt.clone();
+                    let mut cmp_final = cmp.clone();
+                    if cmp.is_some() {
+                        for (n, (k, _, _)) in segs.iter().enumerate() {
+                            if *k != SegKind::Ws {
+                                continue;
+                            }
+                            let (one, s1) = relayout(text, &segs, &|m, t, alc| if m == n { f(m, t, alc) } else { None });
+                            if s1.is_empty() {
+                                continue;
+                            }
+                            let c1 = compare(&base, &observe(&one));
+                            if c1.is_some() {
+                                l = s1[0].0.clone();
+                                r = s1[0].1.clone();
+                                vt_final = one;
+                                cmp_final = c1;
+                                break;
+                            }
+                        }
+                    }
+                    let fc: &'static str = if cmp_final.is_some() && l != "many" { class } else { leg };
+                    out.push((text.clone(), vt_final, l, r, fc, cmp_final));
+                }
+                out
+            })
+            .collect();
+        let mut n_real = 0;
+        for rs in rrows {
+            if !rs.is_empty() {
+                n_real += 1;
+            }
+            for (bt, vt, l, r, fc, cmp) in rs {
+                ctx.class(&format!("leg:real-module:{}", if fc.starts_with("real:") { fc } else { "narrowed-to-one-boundary" }));
+                judge(&mut ctx, &bt, &vt, &l, &r, fc, true, cmp, &mut seen);
+            }
+        }
+        ctx.extra.insert("real_modules_relaid".into(), json!(n_real));
     }
     ctx.extra.insert("inputs".into(), json!(n_inputs));
     ctx.finish()
